@@ -7,7 +7,7 @@
    one an object or array; CSV/TSV only if all complete non-comment lines have the same number >= 2 of fields.
    CSV/TSV are on the quote-free fragment of encoding/csv (a hand model; quoted fields are an oracle); the tie to
    Go is the c13 correspondence channel. *)
-From Verif Require Import Base.Bytes Model.Json Model.Lines Spec.JsonGrammar Spec.JsonGrammar8259 Proofs.LinesP Proofs.LinesFwd.
+From Verif Require Import Base.Bytes Model.Types Model.Detectors Gen.FuncTerms Proofs.TranslateP Model.Json Model.Lines Spec.JsonGrammar Spec.JsonGrammar8259 Proofs.LinesP Proofs.LinesFwd.
 
 Theorem C13_drop_last_line_whole :
   forall raw limit, (limit = 0 \/ N.of_nat (length raw) < limit)%N -> (N.of_nat (length raw) < 4294967296)%N ->
@@ -114,3 +114,9 @@ Example C13_cut_lines_rejected :
 Proof. vm_compute. reflexivity. Qed.
 Example C13_crlf_table : sv_model 44 (b "a,b" ++ [13;10]%N ++ b "1,2" ++ [13;10]%N ++ b "3,") 13 = Some true.
 Proof. vm_compute. reflexivity. Qed.
+
+(* regenerated obligation: in the CURRENT source Csv and Tsv are single calls of sv with their separator and the limit
+   they were given (a constant limit would switch the truncation handling off) *)
+Theorem C13_sv_calls_are_the_source : call_shapes_agree_for ["Csv"; "Tsv"]%string = true.
+Proof. vm_compute. reflexivity. Qed.
+Print Assumptions C13_sv_calls_are_the_source.
